@@ -111,6 +111,10 @@ func (c03) Gen(rng *rand.Rand, tier string) []Case {
 }
 
 func (c03) Run(c Case) Result {
+	return pcGuard("C03:lazy-vs-eager", func() Result { return c03Run(c) })
+}
+
+func c03Run(c Case) Result {
 	var res Result
 	pc, err := pcParseCase(c)
 	if err != nil {
